@@ -1,6 +1,42 @@
 """Differential execution of one program: exec(source) under CPython vs eval(converted) for each
 option combination, compared with the C01 oracle (observe.compare)."""
+import json
+import os
+import subprocess
+import sys
+
 from . import core, observe
+
+# CPython 3.12.1 and 3.13.0 (the interpreters of this image) mis-execute some inlined comprehensions (PEP 709 promises
+# no visible change, but): inside a function a sibling comprehension reading a global named like an earlier
+# comprehension's target raises UnboundLocalError (3.12.1), and a comprehension target captured by a lambda/generator
+# inside the comprehension leaks into the enclosing scope's variable of the same name (3.12.1 and 3.13.0, class and
+# function scopes). These hit the SOURCE or the (correct) converted text. Python 3.11 implements the language
+# reference's comprehension scoping without inlining, so on a host >= 3.12 a behavioural discrepancy only counts if it
+# is reproduced - same source, same text - on 3.11 (on 3.13 when 3.11 is missing or cannot run the source).
+BUGGY_312 = sys.version_info >= (3, 12)
+
+
+def confirmed_elsewhere(src, text, envname):
+    """True unless another runtime finds the converted text equivalent to the source (then the discrepancy is the host's)."""
+    if not BUGGY_312:
+        return True
+    for host in ("py311", "py313"):
+        interp = core.interpreter(host)
+        if not interp:
+            continue
+        doc = {"op": "check", "repo": core.REPO, "jobs": [["k", src, envname, [[0, text]]]]}
+        env = dict(os.environ, PYTHONPATH=core.VERIF, PYTHONDONTWRITEBYTECODE="1", PYTHONHASHSEED="0")
+        try:
+            p = subprocess.run([interp, os.path.join(core.VERIF, "vf", "hostworker.py")], input=json.dumps(doc), capture_output=True, text=True, env=env, timeout=300)
+            res = json.loads(p.stdout)
+        except Exception:
+            continue
+        key, st, rs = res[0]
+        if st != "ok":
+            continue  # the source does not run there (newer syntax): ask the next runtime
+        return bool(rs and rs[0][1])
+    return True
 
 
 def reference(res, src, env=None, limit=5.0, name="__main__"):
@@ -21,7 +57,7 @@ def reference(res, src, env=None, limit=5.0, name="__main__"):
     return code, ref
 
 
-def check_program(res, key, src, cfgs=None, env=None, limit=5.0, name="__main__", ref=None, extra_cmp=None):
+def check_program(res, key, src, cfgs=None, env=None, limit=5.0, name="__main__", ref=None, extra_cmp=None, envname=None):
     """Run the full oracle for one program. Returns number of failing configurations, or None if skipped."""
     if ref is None:
         r = reference(res, src, env, limit, name)
@@ -50,6 +86,9 @@ def check_program(res, key, src, cfgs=None, env=None, limit=5.0, name="__main__"
         d = observe.compare(ref, got)
         if d is None and extra_cmp is not None:
             d = extra_cmp(ref, got)
+        if d and (env is None or envname) and name == "__main__" and not confirmed_elsewhere(src, text, envname):
+            res.c["skipped:discrepancy_not_reproduced_on_3.11_(cpython_3.12/3.13_comprehension_inlining_bugs)"] += 1
+            continue
         if d:
             res.fail(key, ci, "misbehaves", d, {"source": src, "output": text[:3000], "expected": ref.short(), "actual": got.short()})
             nfail += 1
